@@ -269,7 +269,18 @@ def strat_twin():
     return st.fixed_dictionaries({'p': gen.progs(cfg)})
 
 
+def strat_twin_focus():
+    """two-letter alphabet for texts, patterns, separators and plain-str operands: replace / split / strip / partition hit on
+    almost every call, matches span style change points, equal-length replacements are common"""
+    cfg = gen.Cfg(esc=False, odd=0.05, invalid=False, max_ops=3, cls_s=0.0, alphabet='aab', min_text=3, max_text=9, rich=True, ansi_ctor=False,
+                  ops=['replace'] * 6 + ['split', 'rsplit', 'partition', 'rpartition', 'strip', 'lstrip', 'rstrip', 'rmprefix', 'rmsuffix', 'case',
+                                         'expandtabs', 'fmtmatch', 'unfmtmatch', 'slice', 'add', 'join', 'ljust', 'center'])
+    return st.fixed_dictionaries({'p': gen.prog(cfg)})
+
+
 SUBS = [
+    Sub('twin_focus', eval_twin, strategy=strat_twin_focus, quick=400, thorough=6000,
+        rule='twin mode on two-letter texts with position-dependent formatting, replace-heavy'),
     Sub('ctor', eval_ctor, strategy=strat_ctor, quick=500, thorough=8000),
     Sub('twin', eval_twin, strategy=strat_twin, quick=500, thorough=8000),
 ]
